@@ -932,6 +932,53 @@ func (env *SpecEnv) call(e *Expr) *Value {
 	case "seen":
 		n := mustInt(args[0])
 		return env.loopSeen(n)
+	case "chanSent", "chanCap", "chanClosed", "wgExpected", "wgSpawned", "wgDone":
+		// ghost synchronisation state (concurrency.go)
+		var v *Value
+		if args[0].Op == "ident" && env.fr != nil {
+			// a local variable of struct type (var wg sync.WaitGroup): its address
+			v = env.addrOfLocal(args[0].Name)
+		}
+		if v == nil {
+			v = env.eval(args[0])
+		}
+		var ref *Term
+		switch {
+		case v.K == KPtr && v.P.Cell == nil:
+			ref = ptrAsRef(v.P)
+		case v.K == KScalar && v.Term.Sort.Kind == SRef:
+			ref = v.Term
+		default:
+			specFail("%s needs a channel or a *sync.WaitGroup", name)
+		}
+		switch name {
+		case "chanSent":
+			return scalar(tInt, x.ghostGet(env.cur, gChSent, IntSort, ref))
+		case "chanCap":
+			return scalar(tInt, x.ghostGet(env.cur, gChCap, IntSort, ref))
+		case "chanClosed":
+			return scalar(tBool, x.ghostGet(env.cur, gChClosed, BoolSort, ref))
+		case "wgExpected":
+			return scalar(tInt, x.ghostGet(env.cur, gWgAdd, IntSort, ref))
+		case "wgSpawned":
+			return scalar(tInt, x.ghostGet(env.cur, gWgSpawn, IntSort, ref))
+		default:
+			return scalar(tInt, x.ghostGet(env.cur, gWgDone, IntSort, ref))
+		}
+	case "count":
+		// count(N): number of keys the map range loop N has yielded so far (ghost)
+		n := mustInt(args[0])
+		li := env.loopOf(n)
+		for _, in := range li.header.Instrs {
+			if nx, ok := in.(*ssa.Next); ok {
+				if it := env.fr.iters[nx.Iter]; it != nil && it.cnt != nil {
+					if v, ok := env.cur.cells[it.cnt]; ok {
+						return v
+					}
+				}
+			}
+		}
+		specFail("count(%d): loop is not a map range", n)
 	case "strpos":
 		// byte position of the iterator of range-over-string loop N
 		n := mustInt(args[0])
@@ -1888,4 +1935,22 @@ func (x *Exec) zeroOffsetsStructural(v *Value) {
 			x.zeroOffsetsStructural(f)
 		}
 	}
+}
+
+// addrOfLocal: the address of a heap-allocated local variable of the function under verification
+// (nil when there is none with that name, or it is not a struct).
+func (env *SpecEnv) addrOfLocal(name string) *Value {
+	for _, b := range env.fr.fn.Blocks {
+		for _, in := range b.Instrs {
+			if a, ok := in.(*ssa.Alloc); ok && a.Comment == name && a.Heap {
+				if _, isStruct := under(a.Type().(*types.Pointer).Elem()).(*types.Struct); !isStruct {
+					return nil
+				}
+				if v, ok := env.fr.regs[a]; ok {
+					return v
+				}
+			}
+		}
+	}
+	return nil
 }
